@@ -64,6 +64,11 @@ CHECKS = {
         "All bounded combinations of value family, model shape, start_value, pre-stored state and operation script are executed symbolically.",
         "DESIGN.md section 4 C10",
     ),
+    "C11": sx(
+        "construction, (re)activation, history and re-construction scripts enumerated by the solver; callback log judged by the trace acceptor",
+        "Every bounded combination of stored state, start_value, engine/rtc, re-activations, history prefix and restart is executed symbolically.",
+        "DESIGN.md section 4 C11",
+    ),
     "C13": sx(
         "calling styles compared relationally on symbolic guards/arguments; send(name) over the finite attribute-name pool; event matching over a symbolic string (z3 string theory)",
         "Every pre-state x event x calling style twin, every attribute name of the machine as an event name, and Transition.match for all strings.",
